@@ -24,7 +24,7 @@ impl Prop for C17 {
     }
     fn fuzz_plan(&self, tier: Tier) -> Vec<(&'static str, u64)> {
         if tier == Tier::Thorough {
-            vec![("prop", 100_000)]
+            vec![("prop", 30_000)]
         } else {
             vec![]
         }
